@@ -74,6 +74,9 @@ struct R {
     patience: u32,
     /// which of the services built by separate `layer()` calls (sharing the algorithm) is used
     svc: u32,
+    /// the caller keeps the completed call future alive: 0 = dropped at completion, k = for k more
+    /// scheduling steps, u32::MAX = until the end of the scenario (beyond the final inspection)
+    linger: u32,
 }
 
 #[derive(Clone, Debug)]
@@ -110,6 +113,11 @@ pub fn gen(rng: &mut Prng) -> Cfg {
             pause: rng.chance(0.2),
             patience: rng.range(3, 40) as u32,
             svc: 1 + rng.below(n_svcs) as u32,
+            linger: match rng.below(10) {
+                0 => u32::MAX,
+                1 => rng.range(1, 20) as u32,
+                _ => 0,
+            },
         });
     }
     let mut advances = vec![];
@@ -141,7 +149,7 @@ pub fn run(cfg: &Cfg, seed: u64) -> (Arc<World>, crate::sim::SimStats) {
             let req = Req::new(i as u64 + 1, 0, vec![Step { lat: Lat::Gate(gate), out: r.out }]);
             let mut s = svcs[(r.svc - 1) as usize].clone();
             let w2 = w.clone();
-            let (pause, patience) = (r.pause, r.patience);
+            let (pause, patience, linger) = (r.pause, r.patience, r.linger);
             let grp = r.svc;
             let a = sim.actor(req.id, move || {
                 boxed(async move {
@@ -179,19 +187,29 @@ pub fn run(cfg: &Cfg, seed: u64) -> (Arc<World>, crate::sim::SimStats) {
                         }
                     }
                     w2.log(Ev::OuterReady { req: id, ok: true });
-                    let fut = s.call(req);
+                    let mut fut = Box::pin(s.call(req));
                     w2.log(Ev::Issued { req: id });
                     if pause {
                         yield_once().await;
                     }
                     w2.log(Ev::FirstPoll { req: id });
-                    let out = fut.await;
+                    let out = (&mut fut).await;
                     let o = match &out {
                         Ok(r) => Outcome::ok(r),
                         Err(e) => map_err(e),
                     };
                     w2.log(Ev::Resolve { req: id, out: o });
                     w2.log(Ev::Listener { name: "limit-after-call".into(), a: 0, b: s.limit() as u64 });
+                    drop(out);
+                    // a completed call future may legally be kept (polled through `&mut`) and dropped late
+                    if linger == u32::MAX {
+                        w2.note("completed future kept until the end");
+                        std::future::pending::<()>().await;
+                    }
+                    for _ in 0..linger {
+                        yield_once().await;
+                    }
+                    drop(fut);
                 })
             });
             sim.at_poll(r.arrive_poll, What::Start(a));
